@@ -113,42 +113,47 @@ def r_affine(ctx: Ctx, model, tr):
     pot = tr.expr(defs[names[1]], env, None)
     zero(ctx, "C14.L-affine", raw.where, "da|micropore-volume", vol - V0, "micropore volume is not exp(intercept) = V0")
     zero(ctx, "C14.L-affine", raw.where, "da|potential", pot - E / 1000, "characteristic energy is not RT/(-slope)^(1/m)/1000 = E/1000 (kJ/mol)")
-    # ---- t-plot / alpha-s formulas
-    s_, i_ = tr.sym("slope"), tr.sym("intercept")
+    # ---- t-plot / alpha-s formulas: the parameter functions interpreted on a three-point section (sympy numbers), regression summarised
+    import sympy as _sp
+    from ..absint import Obj as _Obj
+    from ..domain import make_interp as _mk
+    from ..libsum import Vec as _Vec, install_vec as _iv
+    Sy = lambda nm: _sp.Symbol(nm, positive=True)
+    s_, i_ = Sy("slope"), Sy("intercept")
     for q, kind in ((f"{CH}.t_plots.t_plot_parameters", "t"), (f"{CH}.alphas_plots.alpha_s_plot_parameters", "alpha")):
         fi = F(q)
-        tr.symbols_override = None
-        A, Lo = ArraySym("X"), ArraySym("Y")
-        env_args = {"thickness_curve": A, "alpha_curve": A, "loading": Lo, "section": tr.sym("sec"), "molar_mass": M, "liquid_density": rho,
-                    "alpha_s_point": tr.sym("alpha_ref"), "reference_area": tr.sym("A_ref")}
-        args = [env_args[pn] for pn in fi.params()]
-        # linregress -> named symbols
-        old = tr.ext_call
-
-        def ext_call(dotted, a, k, e, env, ctx_, old=old):
-            if dotted == "scipy.stats.linregress":
-                return (s_, i_, tr.sym("corr"), tr.sym("pval"), tr.sym("stderr"))
-            return old(dotted, a, k, e, env, ctx_)
-        tr.ext_call = ext_call
-        try:
-            tr.function(fi, args)
-        finally:
-            tr.ext_call = old
-        er = tr.last_env.get("__early_returns__", [])
-        if len(er) != 1 or not isinstance(er[0][1], dict):
-            raise AnalysisError(f"{fi.short}: result dictionary not found")
-        d = er[0][1]
+        I = _mk(model)
+        _iv(I)
+        I.sympy_mode = True
+        vals = (s_, i_, Sy("corr"), Sy("pval"), Sy("stderr"))
+        I.ext["scipy.stats.linregress"] = lambda I, a, k, n, vals=vals: _Obj(kind="LinregressResult", label="fit", attrs=dict(
+            zip(("slope", "intercept", "rvalue", "pvalue", "stderr"), vals), _vals=vals))
+        for nm_ in ("builtins.max", "numpy.max", "numpy.amax"):
+            I.ext[nm_] = lambda I, a, k, n: Sy("max_" + ("x" if "x0" in str(a[0]) else "y"))
+        env_args = {"thickness_curve": _Vec([Sy(f"x{j}") for j in range(3)]), "alpha_curve": _Vec([Sy(f"x{j}") for j in range(3)]),
+                    "loading": _Vec([Sy(f"y{j}") for j in range(3)]), "section": slice(0, 3), "molar_mass": Sy("M"), "liquid_density": Sy("rho"),
+                    "alpha_s_point": Sy("alpha_ref"), "reference_area": Sy("A_ref")}
+        outs = I.explore(lambda I: I.call_func(fi, [env_args[pn] for pn in fi.params()], {}, None))
+        dicts = [o.value for o in outs if o.kind == "ok" and isinstance(o.value, dict)]
+        nones = [o for o in outs if o.kind == "ok" and o.value is None]
+        if len(dicts) != 1 or any(o.kind != "ok" for o in outs):
+            raise AnalysisError(f"{fi.short}: expected one path returning the result dictionary (and one returning None), got {outs}")
+        d = dicts[0]
+        M, rho = Sy("M"), Sy("rho")
         zero(ctx, "C14.L-affine", fi.where, f"{kind}-plot|adsorbed_volume", d["adsorbed_volume"] - i_ * M / rho / 1000,
              "pore volume is not intercept [mmol/g] * M [g/mol] / rho [g/cm3] / 1000 (cm3/g)")
         if kind == "t":
             # slope [mmol/(g nm)] * M [g/mol] / rho [g/cm3]: 1e-3 mol * cm3/mol / 1e-7 cm = 1e4 cm2 = 1 m2
             zero(ctx, "C14.L-affine", fi.where, "t-plot|area", d["area"] - s_ * M / rho, "area is not slope [mmol/(g nm)] * M / rho (m2/g)")
         else:
-            zero(ctx, "C14.L-affine", fi.where, "alpha-plot|area", d["area"] - tr.sym("A_ref") / tr.sym("alpha_ref") * s_,
+            zero(ctx, "C14.L-affine", fi.where, "alpha-plot|area", d["area"] - Sy("A_ref") / Sy("alpha_ref") * s_,
                  "area is not A_ref / alpha_ref * slope")
             # alpha-s of the reference against itself: loading = n_ref, alpha = n_ref/alpha_ref  => slope = alpha_ref => area = A_ref
-            zero(ctx, "C14.L-affine", fi.where, "alpha-plot|self-reference", d["area"].subs(s_, tr.sym("alpha_ref")) - tr.sym("A_ref"),
+            zero(ctx, "C14.L-affine", fi.where, "alpha-plot|self-reference", d["area"].subs(s_, Sy("alpha_ref")) - Sy("A_ref"),
                  "alpha-s of the reference isotherm against itself does not return the reference area")
+        ctx.ob(d.get("slope") == s_ and d.get("intercept") == i_, Finding("C14.L-affine", fi.where, f"{kind}-plot|slope-intercept-reported",
+                                                                         "the reported slope / intercept are not those of the regression"),
+               nontrivial_key=(kind, "reported"))
     # the alpha curve handed to the fit and returned: reference loading / loading at the reducing pressure (interpreted)
     ar = F(f"{CH}.alphas_plots.alpha_s_raw")
     import sympy as _sp
